@@ -293,6 +293,43 @@ func ellipseCase(o *out.W, i int, r *rng.R) {
 			emitBezier(o, i, bcase{"cube-from-arc", b[:]}, tol)
 		}
 	}
+	// the same ellipse with four more pairs of end directions and flags, conversion to cubics only (cheap to judge): the angular
+	// extents between the twelve directions cover every residue of the quarter turn the conversion cuts at (16, 37, 53, 74 degrees
+	// beyond a multiple of 90)
+	for k := 0; k < 4; k++ {
+		e0 := rng.Pick(r, ds.dirs)
+		e1 := rng.Pick(r, ds.dirs)
+		for e1 == e0 {
+			e1 = rng.Pick(r, ds.dirs)
+		}
+		s2, e2 := pos(e0), pos(e1)
+		lg, sw := r.Bool(), r.Bool()
+		var bz2 [][4]P
+		var cx2, cy2 float64
+		msg := safe(func() {
+			bz2 = canvas.VerifEllipseToCubicBeziers(s2, rx, ry, phi, lg, sw, e2)
+			cx2, cy2, _, _ = canvas.VerifEllipseToCenter(s2.X, s2.Y, rx, ry, phi, lg, sw, e2.X, e2.Y)
+		})
+		ok2 := msg == "" && len(bz2) > 0 && !math.IsNaN(cx2) && !math.IsNaN(cy2)
+		var cubs2 []string
+		for _, b := range bz2 {
+			if !finite(b[:]) {
+				ok2 = false
+			}
+		}
+		if ok2 {
+			for _, b := range bz2 {
+				cubs2 = append(cubs2, pts(b[:]))
+			}
+		}
+		ell2 := fmt.Sprintf("(mkEll %s %s %s %s %s)", cq.Pt(cx2, cy2), cq.F(rx), cq.F(ry), cq.Q(int64(rot[0]), int64(rot[2])), cq.Q(int64(rot[1]), int64(rot[2])))
+		if !ok2 {
+			ell2 = ell
+		}
+		d3 := map[string]interface{}{"arc": fmt.Sprintf("M%g %gA%g %g %g %v %v %g %g", s2.X, s2.Y, rx, ry, phi*180/math.Pi, lg, sw, e2.X, e2.Y),
+			"centre": []float64{cx2, cy2}, "cos_sin": []float64{cosphi, sinphi}, "cubics": len(bz2), "panic": msg}
+		o.Emit(out.Case{I: i, Fam: fam + "-more", Coq: fmt.Sprintf("CArcCube %s %s %s", ell2, b2s(ok2), cq.List(cubs2)), Desc: d3, Tags: []string{"CArcCube"}})
+	}
 }
 
 // ---- x-monotone splitting -------------------------------------------------------------------------------
